@@ -22,7 +22,9 @@ ctx_t *core_get(void) { return (ctx_t *)&g_ctx; }
 _Static_assert(__builtin_offsetof(ctx_t, caught) == __builtin_offsetof(struct vc_ctx_prefix, caught), "prefix layout");
 
 /* setjmp has no body for CBMC: it returns 0 (direct return) only.  glibc maps setjmp to _setjmp. */
+#ifndef VC_CUSTOM_SETJMP
 int _setjmp(jmp_buf env) { (void)env; return 0; }
+#endif
 /* longjmp: exceptional exit.  Control never comes back to the thrower; the handler side is out of reach (DESIGN P10). */
 #ifndef VC_CUSTOM_LONGJMP
 void longjmp(jmp_buf env, int val) {
